@@ -258,6 +258,15 @@ func c11Stress(c *mon.Ctx) {
 			c.Violation(f.Sig, f.What+fmt.Sprintf("\n  close storm with %d goroutines", G), map[string]any{"close_storm_goroutines": G})
 		}
 	}
+	// descending push storms: new, lower heads keep appearing while Close flushes
+	for _, G := range []int{2, 8} {
+		rounds, fs := sched.DescendingPushStorm(c.Pick(800, 60000), G)
+		c.Add("descending_push_storm_rounds", rounds)
+		ev.Add(rounds)
+		for _, f := range fs {
+			c.Violation(f.Sig, f.What+fmt.Sprintf("\n  descending push storm with %d pushers", G), map[string]any{"descending_push_storm_goroutines": G})
+		}
+	}
 	c.Nontrivial("close-storms")
 	c.Require("pushes_returned_before_close", 1)
 	c.Require("messages_delivered", 1)
